@@ -214,6 +214,7 @@ def drive_patterned(args):
 
 
 BLOCK_SHAPES = [(), (), (2,), (1,), (2, 1), (1, 2), (3,)]
+BLOCK_SHAPES_ND = [(2, 2), (2, 2), (3, 2), (2, 3), (2, 1, 2), (), (2,)]      # index sets with >= 2 dimensions of size >= 2
 
 
 def drive_multi(args):
@@ -229,10 +230,11 @@ def drive_multi(args):
     transpose = (i // 8) % 2 == 1
     while True:
         keys = ['x', 'y', 'z'][:rng.randint(1, 3)]
-        shapes = {k: rng.choice(BLOCK_SHAPES) for k in keys}
+        nd = i % 6 == 2
+        shapes = {k: rng.choice(BLOCK_SHAPES_ND if nd else BLOCK_SHAPES) for k in keys}
         sizes = {k: int(math.prod(shapes[k])) for k in keys}
         n = sum(sizes.values())
-        if 1 <= n <= 4:
+        if 1 <= n <= (7 if nd else 4) and (not nd or any(len(shapes[k]) >= 2 for k in keys)):
             break
     off, o = {}, 0
     for k in keys:
@@ -315,9 +317,9 @@ def drive_multi(args):
 def run(tier, seed):
     o = Outcome(PID, tier, seed)
     o.assumptions = ['entries on the exact carriers; real-valued systems with spectral radius < 1 only through quarter-valued matrices with a TLC-verified contraction certificate and an integer solution',
-                     'n <= 4 unknowns; <= 3 block indices']
+                     'n <= 4 unknowns (<= 7 with multi-dimensional index sets such as (2,2), (3,2), (2,1,2)); <= 3 block indices']
     with Scratch() as work:
-        cfg = 'INIT Init\nNEXT Next\nCONSTANTS N = 2\nINVARIANT IsSolution\nINVARIANT AboveIterates\nINVARIANT LeastAmongSolutions\nCHECK_DEADLOCK FALSE\n'
+        cfg = 'INIT Init\nNEXT Next\nCONSTANTS N = 2\nINVARIANT IsSolution\nINVARIANT AboveIterates\nINVARIANT LeastAmongSolutions\nINVARIANT StructuralAgreesWithIteration\nCHECK_DEADLOCK FALSE\n'
         if tier == 'thorough':
             r = run_tlc(work / 'r3', 'MC_LinSolve', cfg, workers=1, heap='4g')
             o.add_tlc(r)
